@@ -31,9 +31,15 @@ def subOf (fields : List Fld) (n : Text) : List Fld :=
   | some (_, _, .obj _ sub) => sub
   | _ => []
 
+/-- the primitive type of member `n` -/
+def primOf (fields : List Fld) (n : Text) : PK :=
+  match lookupFld fields n with
+  | some (_, _, .prim p) => p
+  | _ => .boolean
+
 /-- what one key carries -/
 inductive KV where
-  | prims (many : Bool) (vs : List Leaf)
+  | prims (p : PK) (many : Bool) (vs : List Leaf)
   | emptyArr
   | emptyObj (sub : List Fld)
   deriving Repr
@@ -52,8 +58,8 @@ def kentries (fields : List Fld) : Members → List KEntry
   | [] => []
   | (n, sv) :: r => kentriesVal fields n sv ++ kentries fields r
 def kentriesVal (fields : List Fld) (n : Text) : SVal → List KEntry
-  | .leaf v => [⟨[(n, none)], .prims false [v]⟩]
-  | .leaves vs => [⟨[(n, none)], .prims true vs⟩]
+  | .leaf v => [⟨[(n, none)], .prims (primOf fields n) false [v]⟩]
+  | .leaves vs => [⟨[(n, none)], .prims (primOf fields n) true vs⟩]
   | .emptyObj => [⟨[(n, none)], .emptyObj (subOf fields n)⟩]
   | .obj ms => (kentries (subOf fields n) ms).map (KEntry.push n none)
   | .arr elems =>
@@ -75,7 +81,7 @@ def renderKey (delim : Text) (segs : List (Text × Option Nat)) : Text :=
   joinKey delim (segs.map renderSeg)
 
 def KV.texts (F : Facts03) : KV → List (Option Text)
-  | .prims _ vs => vs.map leafText
+  | .prims p _ vs => vs.map (leafText F p)
   | .emptyArr => [some F.emptyMarker]
   | .emptyObj _ => [some F.emptyMarker]
 
@@ -112,12 +118,16 @@ def StrictInc : List Nat → Prop
   | [_] => True
   | a :: b :: r => a < b ∧ StrictInc (b :: r)
 
-/-- a native value of the kind, whose text the leaf parser accepts (integers: the length guard) -/
-def LeafOk (F : Facts03) : PK → Leaf → Prop
-  | .int, .int i => (intText i).length ≤ F.intMaxStrLen
-  | .str, .str _ => True
-  | .bool, .bool _ => True
-  | _, _ => False
+/-- the canonical text of the value passes the integer length guard (only restricts the unbounded
+    `Integer`, `max_str_len = 1024`); the same as `leafFits` of the shared leaf laws -/
+def fitsGuard (F : Facts03) : PK → Leaf → Bool
+  | .integer .unbounded _, .int i => decide ((intToText i).length ≤ F.leaf.intMaxStrLen .unbounded)
+  | _, _ => true
+
+/-- a native value that satisfies every facet of the kind and whose text the leaf parser reads
+    (integers: the length guard); `None` is not a spelled value -/
+def LeafOk (F : Facts03) (p : PK) (v : Leaf) : Prop :=
+  p.valueOk v = true ∧ fitsGuard F p v = true
 
 mutual
 /-- the spelled members fit the class: distinct names, each a member of the right kind -/
